@@ -1138,7 +1138,42 @@ func flagAfter(ws []site, body site) []site {
 // size estimation as soon as it exists; every place of the node that builds one sets the field (in the literal or by
 // an assignment in the same function), or is tabled with the reason the value never meets a state-root network.
 var contextConstructionOK = map[string]string{
-	"pkg/network/payload.(*MerkleBlock).DecodeBinary": "MerkleBlock is neither produced nor handled by the node (no handler for CMDMerkleBlock); its header is decoded in the default shape",
+	"pkg/network/payload.(*MerkleBlock).DecodeBinary":  "MerkleBlock is neither produced nor handled by the node (no handler for CMDMerkleBlock); its header is decoded in the default shape",
+	"pkg/network.(*Message).decodePayload|MerkleBlock": "the same message: decoded because the command is in the table of commands, dropped by the server (no handler for CMDMerkleBlock)",
+}
+
+// embeddedContextFields: the context fields a struct type gets by embedding (any depth up to 3), and the names of
+// the embedded fields they come through.
+func embeddedContextFields(ctxf map[*types.Named][]*types.Var, nt *types.Named, depth int) ([]*types.Var, map[string]bool) {
+	via := map[string]bool{}
+	st, ok := nt.Underlying().(*types.Struct)
+	if !ok || depth > 3 {
+		return nil, via
+	}
+	var out []*types.Var
+	for i := 0; i < st.NumFields(); i++ {
+		f := st.Field(i)
+		if !f.Embedded() {
+			continue
+		}
+		t := f.Type()
+		if p, ok := t.(*types.Pointer); ok {
+			t = p.Elem()
+		}
+		en, ok := t.(*types.Named)
+		if !ok {
+			continue
+		}
+		got := ctxf[en]
+		if len(got) == 0 {
+			got, _ = embeddedContextFields(ctxf, en, depth+1)
+		}
+		if len(got) > 0 {
+			via[f.Name()] = true
+			out = append(out, got...)
+		}
+	}
+	return out, via
 }
 
 func ruleContextConstruction(c *Ctx) {
@@ -1149,7 +1184,7 @@ func ruleContextConstruction(c *Ctx) {
 			continue
 		}
 		rel := pkgRel(fd.Obj.Pkg())
-		if strings.HasPrefix(rel, "pkg/rpcclient") || strings.HasPrefix(rel, "cli") || strings.HasPrefix(rel, "internal") || strings.HasPrefix(rel, "pkg/neotest") {
+		if strings.HasPrefix(rel, "cli") || strings.HasPrefix(rel, "internal") || strings.HasPrefix(rel, "pkg/neotest") {
 			continue
 		}
 		info := fd.Pkg.TypesInfo
@@ -1160,10 +1195,32 @@ func ruleContextConstruction(c *Ctx) {
 				return true
 			}
 			nt, ok := info.TypeOf(lit).(*types.Named)
-			if !ok || len(ctxf[nt]) == 0 {
+			if !ok {
 				return true
 			}
-			for _, cf := range ctxf[nt] {
+			fields := ctxf[nt]
+			if len(fields) == 0 {
+				// a wrapper that embeds a context-dependent type (result.Header, result.Block: the RPC client decodes
+				// JSON into them, and the embedded header's UnmarshalJSON verifies the hash) - unless the literal
+				// provides the embedded value wholesale
+				emb, via := embeddedContextFields(ctxf, nt, 0)
+				provided := false
+				for _, el := range lit.Elts {
+					if kv, ok := el.(*ast.KeyValueExpr); ok {
+						if id, ok := kv.Key.(*ast.Ident); ok && via[id.Name] {
+							provided = true
+						}
+					} else {
+						provided = true // positional literal
+					}
+				}
+				if !provided {
+					fields = emb
+				}
+			} else if strings.HasPrefix(rel, "pkg/rpcclient") {
+				return true
+			}
+			for _, cf := range fields {
 				if !contextReadOutsideDecoder[cf] {
 					// the field matters to the type's decoder only: a value built to be encoded needs none
 					decodes := false
@@ -1207,6 +1264,8 @@ func ruleContextConstruction(c *Ctx) {
 					c.OK(key, c.P.Pos(lit.Pos()), fmt.Sprintf("%s is built with its context field %s set", nt.Obj().Name(), cf.Name()))
 				case contextConstructionOK[FuncKey(fd.Obj)] != "":
 					c.OK(key, c.P.Pos(lit.Pos()), "tabled: "+contextConstructionOK[FuncKey(fd.Obj)])
+				case contextConstructionOK[FuncKey(fd.Obj)+"|"+nt.Obj().Name()] != "":
+					c.OK(key, c.P.Pos(lit.Pos()), "tabled: "+contextConstructionOK[FuncKey(fd.Obj)+"|"+nt.Obj().Name()])
 				default:
 					c.Fail(key, c.P.Pos(lit.Pos()), fmt.Sprintf("%s builds a %s without setting %s, the field that decides its wire shape: whatever is computed from it (encoding, hash, size estimate) is that of the default shape - on a network with state roots in headers the value is 32 bytes shorter than the real one", FuncKey(fd.Obj), nt.Obj().Name(), cf.Name()))
 				}
